@@ -98,6 +98,25 @@ def snap(obj, memo=None, ids=False):
     return ('repr', type(obj).__qualname__, repr(obj))
 
 
+def global_state():
+    '''process-wide settings a read-only operation has no business changing'''
+    import locale
+    import warnings
+    state = {'np.geterr': dict(np.geterr()), 'np.printoptions': repr(sorted(np.get_printoptions().items(), key=str)),
+             'warnings.filters': len(warnings.filters), 'locale': locale.setlocale(locale.LC_ALL, None),
+             'cwd': os.getcwd(), 'np.errcall': repr(np.geterrcall()),
+             'recursionlimit': sys.getrecursionlimit(), 'environ': len(os.environ)}
+    if 'matplotlib' in sys.modules:
+        import matplotlib
+        state['mpl.rcParams'] = hash(str(list(dict.values(matplotlib.rcParams))))
+        state['mpl.backend'] = matplotlib.get_backend()
+    return state
+
+
+def restore_global_state(state):
+    np.seterr(**state['np.geterr'])
+
+
 def first_diff(a, b, path='result'):
     '''where two snapshots differ (for the replay message)'''
     if type(a) is not type(b) or not isinstance(a, tuple):
@@ -149,6 +168,10 @@ def _grid(n, k, mode):
     if 'wide' in mode and n >= 2:
         base[0] -= 1e5
         base[-1] += 1e7
+    if 'rep' in mode and n >= 2:          # repeated edges: zero-width cells next to the extreme bins
+        base[1] = base[0]
+        if 'rep2' in mode:
+            base[-2] = base[-1]
     if 'irr' in mode:
         base = base ** 1.5 - 3.
     if 'dec' in mode:
@@ -305,6 +328,13 @@ def gen_data(rng, kind):
             vals.append([v if mode < 0.3 else round(v + rng.gauss(0, 0.5 if mode < 0.7 else 5.), 3)
                          for v in ref])
             errs.append([round(rng.uniform(0.1, 1.), 3) for _ in range(nbin)])
+        if rng.random() < 0.12:       # zero errors (all cells, or some cells of every dataset): 0/0, x/0
+            cells = range(nbin) if rng.random() < 0.5 else rng.sample(range(nbin), max(1, nbin // 2))
+            for k in range(nds):
+                for c in cells:
+                    errs[k][c] = 0.0
+                    if rng.random() < 0.5:
+                        vals[k][c] = vals[0][c]
         # special floats in values AND errors of any dataset (the reference included), at a controlled
         # rate: in-place "cleaning" idioms (nan_to_num / clip / abs / round / sort with out= or copy=False,
         # masked fills) only show on such cells
@@ -330,7 +360,8 @@ def gen_data(rng, kind):
         data['descr'] = rng.choice(['', '', 'a description', 'same'])
         # the grids (bins) of the datasets: increasing mostly; else decreasing (lethargy, cosine...), with very
         # wide extreme bins, irregular -- every dataset of a test owns its own arrays with the same numbers
-        data['grid'] = rng.choice(['inc'] * 5 + ['dec', 'dec', 'dec-wide', 'wide', 'dec-irr', 'irr'])
+        data['grid'] = rng.choice(['inc'] * 6 + ['dec', 'dec', 'dec-wide', 'wide', 'dec-irr', 'irr', 'rep', 'rep2',
+                                   'dec-rep', 'rep-wide'])
         # dtypes / byte orders of the arrays: native float64 mostly; else non-native ('>f8', '>f4', '>i8'),
         # narrower / wider floats, integers -- uniform or mixed per test
         dtr = rng.random()
@@ -395,7 +426,7 @@ def gen_ops(rng, kind):
         for op in sweep:
             ops.append(op)
             if rng.random() < 0.15:
-                ops.append([rng.choice(['fingerprint', 'pickle', 'evaluate', 'bool', 'deepcopy'])])
+                ops.append([rng.choice(['fingerprint', 'pickle', 'evaluate', 'fresh', 'evaluate', 'bool', 'deepcopy'])])
         return ops
     ops = []
     for _ in range(rng.randint(1, 12)):
@@ -420,7 +451,7 @@ def gen_ops(rng, kind):
             else:
                 ops.append(['bool'])
         else:
-            ops.append(['evaluate'])
+            ops.append([rng.choice(['evaluate', 'evaluate', 'fresh'])])
     return ops
 
 
@@ -536,12 +567,16 @@ def run_impl(ctx, case, steps):
                                f'result: {first_diff(prev_after, before)} :: {case}', case,
                                key='state-changed-by-read')
         ctx.count('op_' + op[0])
+        glob0 = global_state()
         try:
-            if op[0] == 'evaluate':
-                again = test.evaluate() if kind != 'failed' else result
+            if op[0] in ('evaluate', 'fresh'):
+                # the same test object again / a fresh test built from equal inputs: identical result
+                again = result if kind == 'failed' else test.evaluate() if op[0] == 'evaluate' else \
+                    build_result(case)[1]
                 out = snap(again) == initial
                 if not out:
-                    ctx.oracle_failure(f'evaluating the test again gives another result '
+                    ctx.oracle_failure(f'evaluating the test again ({op[0]}) after operations '
+                                       f'{case["ops"][:n]} gives another result '
                                        f'({first_diff(initial, snap(again))}) :: {case}', case,
                                        key='evaluate-not-repeatable')
             else:
@@ -549,6 +584,18 @@ def run_impl(ctx, case, steps):
         except Exception as exc:  # noqa
             out = exc
             ctx.count('op_raises_' + type(exc).__name__)
+            if op[0] in ('evaluate', 'fresh'):
+                ctx.oracle_failure(f'evaluating the test again ({op[0]}) after operations {case["ops"][:n]} raises '
+                                   f'{type(exc).__name__}: {str(exc)[:120]} although the first evaluation succeeded '
+                                   f':: {case}', case, key='evaluate-not-repeatable')
+        glob1 = global_state()
+        if glob1 != glob0:
+            changed = {k: (glob0.get(k), glob1.get(k)) for k in glob1
+                       if k in glob0 and glob0.get(k) != glob1.get(k)}      # (a first import adds keys)
+        if glob1 != glob0 and changed:
+            ctx.oracle_failure(f'operation {n} {op} on a {kind} result changes process-wide state: {changed} '
+                               f':: {case}', case, key='global-state-changed-by-' + op[0])
+            restore_global_state(glob0)
         after = snap(result, ids=True)
         if after != before:
             ctx.oracle_failure(f'operation {n} {op} changes the {kind} result: {first_diff(before, after)} '
@@ -630,7 +677,10 @@ def run_hash_seeds(ctx, cases):
     whatever is recorded must be identical'''
     import subprocess
     meta = [c for c in cases if c['kind'] == 'meta']
-    others = [c for c in cases if c['kind'] != 'meta']
+    # (extended-precision arrays carry uninitialised padding bytes that fingerprint() hashes: their anchors
+    # differ from one process to the next whatever the hash seed; left out of this stream, noted in design.d)
+    others = [c for c in cases if c['kind'] != 'meta'
+              and 'longdouble' not in (c['data'].get('dtypes') or ())]
     sample = meta[:150 if ctx.tier == 'quick' else 1500] + others[:60 if ctx.tier == 'quick' else 400]
     path = os.path.join(ctx.wd(), 'hashseed_cases.json')
     json.dump(sample, open(path, 'w'))
@@ -671,7 +721,7 @@ def run(ctx):
                 'operations; distinct by case content')
     rng = ctx.rng
     cases = [json.loads(json.dumps(c)) for c in CORPUS]
-    nrand = 2500 if ctx.tier == "quick" else 30000
+    nrand = 1800 if ctx.tier == "quick" else 30000
     for _ in range(nrand):
         kind = rng.choice(KINDS + ['tasks', 'tests', 'bylabels'])
         cases.append({'kind': kind, 'data': gen_data(rng, kind), 'ops': gen_ops(rng, kind)})
